@@ -45,7 +45,7 @@ class C13(PipelineCheck):
             'non-trivial: >= 1 fault fired and >= 2 keys or >= 4 events; distinct = distinct (program, schedule, plan)')
     assumptions = ['the handler sits directly behind the failing operator (what the statement specifies)',
                    'with handler "none" the failing operator is the last one of its pipeline, so the mux error reaches the demultiplexer directly']
-    probe_names = ('fault:first', 'fault:last', 'fault:consecutive', 'fault:all_of_a_key', 'handler:ignore', 'handler:error_map',
+    probe_names = ('falsy_exception_raised', 'fault:first', 'fault:last', 'fault:consecutive', 'fault:all_of_a_key', 'handler:ignore', 'handler:error_map',
                    'handler:router', 'handler:none', 'op:map', 'op:starmap', 'op:filter', 'op:scan', 'stateful_downstream', 'keys>=3',
                    'wrapped_in_window')
 
@@ -140,7 +140,7 @@ class C13(PipelineCheck):
                 break
         plan = [list(x) for x in sorted(set(tuple(x) for x in plan))]
         case = {'program': program, 'events': events, 'end': 'complete', 'style': style, 'handler': handler,
-                'faults': {SITE: plan}, 'pattern': pattern}
+                'faults': {SITE: plan}, 'pattern': pattern, 'falsy': rng.random() < 0.25}
         if not self.valid(case):
             case['program'] = [{'op': 'group_by', 'key': 'rk', 'inner': [dict(op)] + ([{'op': handler}] if handler not in ('none', 'error_map') else
                                                                                  ([{'op': 'error_map', 'value': {'rec': 'rec', 'int': -1, 'list': []}[ot]}]
@@ -154,7 +154,8 @@ class C13(PipelineCheck):
         plan = set(tuple(x) for x in case['faults'].get(SITE, []))
         handler = case['handler']
         fail = {SITE: sorted(plan)}
-        ctx, final, escaped = run_mux(program, events, 'complete', monitor=False, fail=fail)
+        falsy = bool(case.get('falsy'))
+        ctx, final, escaped = run_mux(program, events, 'complete', monitor=False, fail=fail, extra={'falsy_faults': falsy})
         out.shape = (shape_of(case), tuple(sorted(plan)), handler)
         out.steps = len(events) + 1
         out.ticks = events[-1]['t'] if events else 0
@@ -205,7 +206,8 @@ class C13(PipelineCheck):
                     by_idx.setdefault(good[j2] if j2 != END else END, []).append(cv)
                 for j, v in enumerate(vals):
                     if (v.k, v.n) in plan:
-                        merged.append(('E', seq_of(j), ('exc', 'InjectedFault', (('s', SITE), v.k, v.n))))
+                        ename = 'EmptyFault' if falsy and (v.k + v.n) % 2 == 0 else 'InjectedFault'
+                        merged.append(('E', seq_of(j), ('exc', ename, (('s', SITE), v.k, v.n))))
                     for cv in by_idx.get(j, ()):
                         merged.append(('N', seq_of(j), cv))
                 for cv in by_idx.get(END, ()):
@@ -283,6 +285,8 @@ class C13(PipelineCheck):
         parties = len(set(e['p'] for e in events))
         out.nontrivial = fired >= 1 and (parties >= 2 or len(events) >= 4)
         p['handler:' + handler] += 1
+        if falsy and fired:
+            p['falsy_exception_raised'] += 1
         p['op:' + opn['op']] += 1
         if fired:
             p['fault:' + case.get('pattern', '?')] += 1
